@@ -330,7 +330,8 @@ MANIFEST = {
     "C16": dict(
         text="TLC checks spec/Metrics (registry (name, labelset) -> kind/value/group; SendBatch = validate all, per group expire then "
              "apply, then ungrouped operations) for AtomicValidation, GroupReplaced, OthersUntouched, ValueRules and GroupOrderIrrelevant: "
-             "exhaustively over all histories of two operations and over <= 2 batches x <= 2 operations, and along simulated behaviours of "
+             "exhaustively over all histories of two operations, all single batches of three operations on one name and <= 2 batches x <= 2 "
+             "operations (history hidden by a VIEW), and along simulated behaviours of "
              "4 batches x <= 3 operations (2 names, 3 label shapes, 2 groups, 2 hooks, values in halves, 14 kinds of invalid operation). "
              "Every exported history is replayed on the real metric_storage.MetricStorage (private registry) in three syntaxes "
              "(constructed operations, file syntax via MetricOperationsFromBytes, deprecated add/set shortcuts); after every batch the "
